@@ -16,6 +16,10 @@ import StorageModel.Tx.Events
   processPostCommit, handleCommit, tx-complete listeners, in OnCommit order).  All theorems are about
   the return table regenerated from the code (`FromCode`).
 
+  Two child stores (C, D) are registered on the parent store; an entity may have data in both.  A
+  delete announces one flow per store that holds the entity (`Spec.deleteFlows`); an update is
+  performed — and announced — by the first child store that holds the entity.
+
   The model also covers child data created over an existing plain parent entity (legal since fix
   8269ce9: a child store only looks at its own data for "already exists"): such a create is a change
   through the child store like any other — `child_change_parent_event` applies to it — and custom
@@ -146,6 +150,9 @@ theorem events_final_state_create (env : Env) (h : FromCode env) (fault : Fault)
   | C =>
     simp only [writeFlows, List.mem_cons, List.mem_nil_iff, or_false] at hfl
     rcases hfl with rfl | rfl <;> simp [payload, view_put_same, writtenEnt]
+  | D =>
+    simp only [writeFlows, List.mem_cons, List.mem_nil_iff, or_false] at hfl
+    rcases hfl with rfl | rfl <;> simp [payload, view_put_same, writtenEnt]
 
 /-- **C08, final state** (update): the same for an accepted update; the flow also carries the state
     before the update. -/
@@ -172,6 +179,10 @@ theorem events_final_state_update (env : Env) (h : FromCode env) (fault : Fault)
     rw [hs] at hfl
     simp only [writeFlows, List.mem_cons, List.mem_nil_iff, or_false] at hfl
     rcases hfl with rfl | rfl <;> simp [payload]
+  | D =>
+    rw [hs] at hfl
+    simp only [writeFlows, List.mem_cons, List.mem_nil_iff, or_false] at hfl
+    rcases hfl with rfl | rfl <;> simp [payload]
 
 /-- **C08, last state** (delete): every flow queued by an accepted delete carries the entity as it was
     before the delete, and the entity is gone afterwards. -/
@@ -188,102 +199,120 @@ theorem events_last_state_delete (env : Env) (h : FromCode env) (fault : Fault) 
   simp only [specOp, e1, e2]
   refine ⟨?_, Db.get_del_same _ _⟩
   intro fl hfl
-  unfold delFlows view at hfl
+  unfold deleteFlows view at hfl
   simp only [hg] at hfl
-  cases hc : e.child with
-  | none =>
-    simp only [hc, Option.map_none, List.mem_singleton] at hfl
-    subst hfl
-    simp [payload, view, hg, deleteFlow]
-  | some r =>
-    simp only [hc, Option.map_some, List.mem_cons, List.mem_nil_iff, or_false] at hfl
-    rcases hfl with rfl | rfl <;> simp [payload, view, hg, hc, deleteFlow]
+  cases hc : e.child <;> cases hd : e.child2 <;>
+    simp only [hc, hd, Option.map_none, Option.map_some, List.nil_append, List.cons_append, List.mem_cons,
+      List.mem_nil_iff, or_false] at hfl
+  all_goals (rcases hfl with rfl | hfl)
+  all_goals (try (rcases hfl with rfl | hfl))
+  all_goals (try subst hfl)
+  all_goals (try (exact absurd hfl (by simp)))
+  all_goals simp [payload, view, hg, hc, hd]
+
+/-- the flows of a delete, spelled out on the stored entity -/
+theorem deleteFlows_shape (db : Db) (id : String) (e : Ent) (hg : db.get id = some e) :
+    deleteFlows db id =
+      (⟨.P, .deleted, id, some (.parent id e.f), none, e.child.isSome || e.child2.isSome⟩ : Flow) ::
+      ((e.child.map fun r => (⟨.C, .deleted, id, some (.child id e.f r), none, false⟩ : Flow)).toList ++
+       (e.child2.map fun g => (⟨.D, .deleted, id, some (.child2 id e.f g), none, false⟩ : Flow)).toList) := by
+  unfold deleteFlows view
+  simp only [hg]
+  cases e.child <;> cases e.child2 <;> simp
+
+/-- the child stores an operation's change concerns: the store a create goes through, the store that
+    performs an update, every child store that holds a deleted entity (in registration order) -/
+def childStoresOf (o : Op) (db : Db) : List StoreId :=
+  match o with
+  | .create σ _ _ _ => if σ = .P then [] else [σ]
+  | .update σ id _ _ => if updateStore σ db id = .P then [] else [updateStore σ db id]
+  | .delete _ id => (if hasChild db id then [.C] else []) ++ (if hasChild2 db id then [.D] else [])
+  | .deleteWhere _ _ => []
 
 /-- **C08, a change to a child-store entity produces exactly one event on the parent store, marked as
-    parent event, and one on the child store** — for a create through the child store, an update
-    (through either store) of an entity with child data, a delete (through either store) of an entity
-    with child data. -/
+    parent event, and exactly one on every child store concerned** — for a create through a child store
+    (from scratch or over an existing parent entity, which may already have data in the other child
+    store), an update (through any store) of an entity with child data — performed by the first child
+    store that holds it —, a delete (through any store) of an entity with data in one or in both child
+    stores: one flow per child store that holds it, in registration order. -/
 theorem child_change_parent_event (env : Env) (h : FromCode env) (fault : Fault) (o : Op) (st : TxSt)
     (hok : (runOp env fault o st).2 = .ok)
-    (hchild : match o with
-      | .create σ _ _ _ => σ = .C
-      | .update σ id _ _ => updateStore σ st.db id = .C
-      | .delete _ id => hasChild st.db id = true
-      | .deleteWhere _ _ => False) :
-    ∃ pf cf, (specOp env fault o st.db).flows = [pf, cf] ∧
-      pf.store = .P ∧ pf.parentEvent = true ∧ cf.store = .C ∧ cf.parentEvent = false ∧
-      pf.kind = cf.kind ∧ pf.id = cf.id ∧
-      (runOp env fault o st).1.queue = st.queue ++ [.post pf, .post cf] := by
+    (hchild : childStoresOf o st.db ≠ []) :
+    ∃ pf cfs, (specOp env fault o st.db).flows = pf :: cfs ∧
+      pf.store = .P ∧ pf.parentEvent = true ∧
+      cfs.map (·.store) = childStoresOf o st.db ∧
+      (∀ cf ∈ cfs, cf.store ≠ .P ∧ cf.parentEvent = false ∧ cf.kind = pf.kind ∧ cf.id = pf.id) ∧
+      (runOp env fault o st).1.queue = st.queue ++ (pf :: cfs).map .post := by
   obtain ⟨_, hiff, hrest⟩ := runOp_refines env h.expected fault o st
   have hacc := hiff.mp hok
   obtain ⟨_, hq, _⟩ := hrest hok
   rw [hq]
   cases o with
   | create σ id f rank =>
-    simp only at hchild
-    subst hchild
-    obtain ⟨_, e2⟩ := specCreate_accepted env fault .C id f rank st.db hacc
-    simp only [specOp, e2, writeFlows]
-    exact ⟨_, _, rfl, rfl, rfl, rfl, rfl, rfl, rfl, rfl⟩
-  | update σ id f rank =>
-    simp only at hchild
-    obtain ⟨_, _, e2⟩ := specUpdate_accepted env fault σ id f rank st.db hacc
-    simp only [specOp, e2, hchild, writeFlows]
-    exact ⟨_, _, rfl, rfl, rfl, rfl, rfl, rfl, rfl, rfl⟩
-  | delete σ id =>
-    simp only at hchild
-    obtain ⟨⟨e, hg⟩, _, e2⟩ := specDelete_accepted env fault id st.db hacc
-    unfold hasChild at hchild
-    simp only [hg, Option.bind_some] at hchild
-    obtain ⟨r, hr⟩ := Option.isSome_iff_exists.mp hchild
+    obtain ⟨_, e2⟩ := specCreate_accepted env fault σ id f rank st.db hacc
     simp only [specOp, e2]
-    unfold delFlows view
-    simp only [hg, hr, Option.map_some]
-    exact ⟨_, _, rfl, rfl, rfl, rfl, rfl, rfl, rfl, rfl⟩
-  | deleteWhere σ q => exact absurd hchild (by simp)
+    cases σ with
+    | P => simp [childStoresOf] at hchild
+    | C => exact ⟨_, _, rfl, rfl, rfl, rfl, by simp, rfl⟩
+    | D => exact ⟨_, _, rfl, rfl, rfl, rfl, by simp, rfl⟩
+  | update σ id f rank =>
+    obtain ⟨_, _, e2⟩ := specUpdate_accepted env fault σ id f rank st.db hacc
+    simp only [specOp, e2]
+    unfold childStoresOf at hchild ⊢
+    cases hs : updateStore σ st.db id with
+    | P => simp [hs] at hchild
+    | C => exact ⟨_, _, rfl, rfl, rfl, by simp [hs], by simp, rfl⟩
+    | D => exact ⟨_, _, rfl, rfl, rfl, by simp [hs], by simp, rfl⟩
+  | delete σ id =>
+    obtain ⟨⟨e, hg⟩, _, e2⟩ := specDelete_accepted env fault id st.db hacc
+    simp only [specOp, e2]
+    rw [deleteFlows_shape st.db id e hg]
+    unfold childStoresOf hasChild hasChild2 at hchild ⊢
+    simp only [hg, Option.bind_some] at hchild ⊢
+    refine ⟨_, _, rfl, rfl, ?_, ?_, ?_, rfl⟩
+    · cases hc : e.child <;> cases hd : e.child2 <;> simp_all
+    · cases hc : e.child <;> cases hd : e.child2 <;> simp
+    · cases hc : e.child <;> cases hd : e.child2 <;> simp
+  | deleteWhere σ q => simp [childStoresOf] at hchild
 
-/-- **C08, plain parent entities produce no event on the child store**: a create through the parent
-    store, an update or delete of an entity without child data queue exactly one flow, on the parent
-    store, not marked as parent event. -/
+/-- **C08, plain parent entities produce no event on a child store**: a create through the parent
+    store, an update or delete of an entity without data in any child store queue exactly one flow, on
+    the parent store, not marked as parent event. -/
 theorem plain_parent_no_child_event (env : Env) (h : FromCode env) (fault : Fault) (o : Op) (st : TxSt)
     (hok : (runOp env fault o st).2 = .ok)
-    (hplain : match o with
-      | .create σ _ _ _ => σ = .P
-      | .update σ id _ _ => updateStore σ st.db id = .P
-      | .delete _ id => hasChild st.db id = false
-      | .deleteWhere _ _ => False) :
+    (hplain : childStoresOf o st.db = [] ∧ (match o with | .deleteWhere _ _ => False | _ => True)) :
     ∃ pf, (specOp env fault o st.db).flows = [pf] ∧ pf.store = .P ∧ pf.parentEvent = false ∧
       (runOp env fault o st).1.queue = st.queue ++ [.post pf] := by
   obtain ⟨_, hiff, hrest⟩ := runOp_refines env h.expected fault o st
   have hacc := hiff.mp hok
   obtain ⟨_, hq, _⟩ := hrest hok
   rw [hq]
+  obtain ⟨hplain, hnw⟩ := hplain
   cases o with
   | create σ id f rank =>
-    simp only at hplain
-    subst hplain
-    obtain ⟨_, e2⟩ := specCreate_accepted env fault .P id f rank st.db hacc
-    simp only [specOp, e2, writeFlows]
-    exact ⟨_, rfl, rfl, rfl, rfl⟩
-  | update σ id f rank =>
-    simp only at hplain
-    obtain ⟨_, _, e2⟩ := specUpdate_accepted env fault σ id f rank st.db hacc
-    simp only [specOp, e2, hplain, writeFlows]
-    exact ⟨_, rfl, rfl, rfl, rfl⟩
-  | delete σ id =>
-    simp only at hplain
-    obtain ⟨⟨e, hg⟩, _, e2⟩ := specDelete_accepted env fault id st.db hacc
-    unfold hasChild at hplain
-    simp only [hg, Option.bind_some] at hplain
-    have hr : e.child = none := by
-      cases hc : e.child with
-      | none => rfl
-      | some r => simp [hc] at hplain
+    obtain ⟨_, e2⟩ := specCreate_accepted env fault σ id f rank st.db hacc
     simp only [specOp, e2]
-    unfold delFlows view
-    simp only [hg, hr, Option.map_none]
+    cases σ with
+    | P => exact ⟨_, rfl, rfl, rfl, rfl⟩
+    | C => simp [childStoresOf] at hplain
+    | D => simp [childStoresOf] at hplain
+  | update σ id f rank =>
+    obtain ⟨_, _, e2⟩ := specUpdate_accepted env fault σ id f rank st.db hacc
+    simp only [specOp, e2]
+    unfold childStoresOf at hplain
+    cases hs : updateStore σ st.db id with
+    | P => exact ⟨_, rfl, rfl, rfl, rfl⟩
+    | C => simp [hs] at hplain
+    | D => simp [hs] at hplain
+  | delete σ id =>
+    obtain ⟨⟨e, hg⟩, _, e2⟩ := specDelete_accepted env fault id st.db hacc
+    simp only [specOp, e2]
+    rw [deleteFlows_shape st.db id e hg]
+    unfold childStoresOf hasChild hasChild2 at hplain
+    simp only [hg, Option.bind_some] at hplain
+    cases hc : e.child <;> cases hd : e.child2 <;> simp [hc, hd] at hplain
     exact ⟨_, rfl, rfl, rfl, rfl⟩
-  | deleteWhere σ q => exact absurd hplain (by simp)
+  | deleteWhere σ q => exact absurd hnw (by simp)
 
 /-! ## nothing for undone work; commit actions and tx-complete listeners once -/
 
@@ -340,7 +369,7 @@ theorem commit_actions_once (env : Env) (h : FromCode env) (db : Db) (prevCtx : 
 /-- the former counter-example: one tx-complete listener, a Batch transaction that registers a commit
     action and deletes an entity — it commits, the commit action runs once, and so does the listener -/
 def batchWitnessEnv : Env := { regsP := [], regsC := [], txListeners := 1, t := Generated.crudReturns }
-def batchWitnessDb : Db := [("p1", { f := ⟨"n1", [], none⟩, child := none })]
+def batchWitnessDb : Db := [("p1", { f := ⟨"n1", [], none, []⟩, child := none })]
 def batchWitnessTx : TxSpec := { mode := .batch, reuseCtx := false, body := [.addCommit 1, .op (.delete .P "p1") .none false] }
 
 theorem batch_runs_tx_complete :
@@ -353,7 +382,7 @@ theorem batch_runs_tx_complete :
 -- a listener registered for [deleted, deletedAsync] on the parent store
 example :
     (runTx { regsP := [.listener .untyped [⟨.deleted, false⟩, ⟨.deleted, true⟩]], regsC := [], txListeners := 1, t := Generated.crudReturns }
-      [("c1", { f := ⟨"n", [], none⟩, child := some "k" })] Ctx.empty
+      [("c1", { f := ⟨"n", [], none, []⟩, child := some "k" })] Ctx.empty
       { mode := .update, reuseCtx := false, body := [.op (.delete .C "c1") .none false] }).res = .ok := by
   decide
 
@@ -362,13 +391,23 @@ example :
 -- called once, with the parent view of the entity as it is after the create
 example :
     (runTx { regsP := [.listener .untyped [⟨.created, false⟩]], regsC := [], txListeners := 0, t := Generated.crudReturns }
-      [("p4", { f := ⟨"n0", ["t"], none⟩, child := none })] Ctx.empty
-      { mode := .update, reuseCtx := false, body := [.op (.create .C "p4" ⟨"n0", ["t"], none⟩ "k5") .none false] }).res = .ok ∧
+      [("p4", { f := ⟨"n0", ["t"], none, []⟩, child := none })] Ctx.empty
+      { mode := .update, reuseCtx := false, body := [.op (.create .C "p4" ⟨"n0", ["t"], none, []⟩ "k5") .none false] }).res = .ok ∧
     deliveriesTo .P 0 0
       (runTx { regsP := [.listener .untyped [⟨.created, false⟩]], regsC := [], txListeners := 0, t := Generated.crudReturns }
-        [("p4", { f := ⟨"n0", ["t"], none⟩, child := none })] Ctx.empty
-        { mode := .update, reuseCtx := false, body := [.op (.create .C "p4" ⟨"n0", ["t"], none⟩ "k5") .none false] }).fired
-      = [(false, .created, some (.parent "p4" ⟨"n0", ["t"], none⟩))] := by
+        [("p4", { f := ⟨"n0", ["t"], none, []⟩, child := none })] Ctx.empty
+        { mode := .update, reuseCtx := false, body := [.op (.create .C "p4" ⟨"n0", ["t"], none, []⟩ "k5") .none false] }).fired
+      = [(false, .created, some (.parent "p4" ⟨"n0", ["t"], none, []⟩))] := by
+  decide +kernel
+
+-- witness: an entity with data in BOTH child stores is deleted through the first one — the delete listener
+-- of the second child store is called exactly once, with the entity's last state in that store
+example :
+    deliveriesTo .D 0 0
+      (runTx { regsP := [], regsC := [], regsD := [.listener .func [⟨.deleted, false⟩]], txListeners := 0, t := Generated.crudReturns }
+        [("c1", { f := ⟨"n", [], none, []⟩, child := some "k", child2 := some "g" })] Ctx.empty
+        { mode := .update, reuseCtx := false, body := [.op (.delete .C "c1") .none false] }).fired
+      = [(false, .deleted, some (.child2 "c1" ⟨"n", [], none, []⟩ "g"))] := by
   decide +kernel
 
 end StorageModel.Properties.C08
